@@ -84,7 +84,7 @@ class P(Prop):
     THEOREMS = (["C01_Poly%d_%s" % (k, w) for k in range(9) for w in ("value", "exact", "bound")] +
                 ["C01_PolyN_empty", "C01_PolyN_exact", "C01_PolyN_bound"] +
                 ["C01_Log%d_%s" % (k, w) for k in range(9) for w in ("value", "float")] +
-                ["C01_log_propagation", "C01_example"])
+                ["C01_Poly%d_hypotheses_hold" % k for k in range(9)] + ["C01_log_propagation", "C01_example"])
     KERNELS = (["Poly%d::evaluate" % k for k in range(9)] + ["Log<Poly%d>::evaluate" % k for k in range(9)] +
                ["IntOfLogPoly4::evaluate", "IntOfLog<Poly2>::evaluate"])
     RULE = ("Poly0..8, Log<Poly0..8> evaluate kernels (regenerated) and PolyN (lengths 0..12, thorough ..64) run bit-exactly "
@@ -121,6 +121,12 @@ class P(Prop):
             xs = [argument(rng, style) for _ in range(3)]
             out.append(dict(op="polyn_eval", cs=[C.bits(c) for c in cs], xs=[C.bits(x) for x in xs], meta={"class": "polyn/" + style}))
         return out
+
+    def hyp_term(self, case, h):
+        # do the hypotheses of C01_PolyK_bound (`safe`) hold on this input?
+        if case["op"] == "k" and case["name"].startswith("Poly") and case["meta"].get("class", "").startswith("poly/"):
+            return "hyp_safe %s %s" % (C.kname(case["name"]), C.zlist(case["args"]))
+        return None
 
     def coq_term(self, case, h):
         if case["op"] == "k":
